@@ -1,10 +1,27 @@
-"""C14: chunking laws (theorems in props/C14.v) + correspondence of the real chunkers with Chunk.v."""
+"""C14: ObjectSlices are a transparent, lossless encoding of phase objects.
+Stages: chunk laws (real chunkers vs Chunk.v), slice names (real chunkPhase/reconcileSlice vs Slices.chunk_phase),
+slice garbage collection (histories of the real DeploymentReconciler.Reconcile vs Slices.slice_gc), and the sliced
+ObjectSet (real (Cluster)ObjectSet controller on twin worlds, inline vs sliced, vs Slices.sliced_pass[_fixed])."""
+import copy
 import json
 import vlib
+import phaselib as pl
+import setlib as sl
+import setgen
 from vlib import cN, cB, cL, cP, cO
 
 IMPORTS = "From PKOCorr Require Import C14Corr."
+SIMPORTS = ("From PKO Require Import Base Owner Api Phase ObjectSet Slices.\n"
+            "From PKOCorr Require Import PhaseCorr SetCorr C14SliceCorr.")
 
+F_C14 = ("C14 sliced ObjectSet is torn down/archived before its slices are loaded: objects in slices are not deleted "
+         "in order (deletion) or not at all (archival)")
+ID_ACTIVE = "C14 sliced ObjectSet rolls out or reports status differently from the same ObjectSet with the objects inline"
+ID_NAMES = "C14 slice name reused for different content or a foreign controller, or an existing slice modified"
+ID_GC = "C14 slice garbage collection deleted a slice that the template or an ObjectSet of the deployment references"
+
+
+# ------------------------------------------------------------------ chunk laws (clause 1)
 
 def gen(seed, tier):
     r = vlib.rng(seed, "C14")
@@ -15,7 +32,7 @@ def gen(seed, tier):
     for f in fixed:
         for st in ("binpack", "each"):
             out.append({"strategy": st, "sizes": [{"q": q, "d": d} for q, d in f]})
-    n = 120 if tier == "quick" else 1500
+    n = 120 if tier == "quick" else 4000
     for _ in range(n):
         k = r.choice([1, 2, 2, 3, 3, 4, 5, 6, 8])
         sizes = []
@@ -32,15 +49,7 @@ def term(sc, obs):
     return cP(cB(sc["strategy"] == "binpack"), cN(obs["limit"]), cL([cN(s) for s in obs["sizes"]]), cO(out))
 
 
-def check(run, tier, seed, replay=None):
-    run.assumptions += ["object sizes are positive (len(json.Marshal(obj)) >= 2), checked per case",
-                        "sliced-vs-inline pass equivalence and slice GC are covered by the pass-level checks (see DESIGN)"]
-    vlib.std_proof_stage(run, "C14")
-    ok, blog = vlib.build_harness()
-    if not ok:
-        run.violation("corr:harness-build", {"correspondence": "harness no longer builds against the tree", "log": blog[-4000:]}, False)
-        return
-    scs = [json.load(open(replay))["replay"]["scenario"]] if replay else gen(seed, tier)
+def chunk_stage(run, scs):
     outs = vlib.run_harness("chunk", scs, par=8)
     terms, idx = [], []
     for i, (sc, o) in enumerate(zip(scs, outs)):
@@ -55,12 +64,11 @@ def check(run, tier, seed, replay=None):
     res, logs = vlib.judge_cases("C14", IMPORTS, "judge", terms, 2)
     for l in logs:
         run.violation("corr:C14/coq-eval", {"correspondence": "coq evaluation failed", "log": l}, False)
-    run.cov["evaluations"] = len(terms)
     for i, r in zip(idx, res):
         if r is None:
             continue
         sc, obs = scs[i], outs[i]["obs"]
-        cls = (sc["strategy"], obs["bypass"], len(obs["chunks"]), tuple(len(c) for c in obs["chunks"]))
+        cls = ("chunk", sc["strategy"], obs["bypass"], len(obs["chunks"]), tuple(len(c) for c in obs["chunks"]))
         if len(obs["sizes"]) >= 2:
             run.classes.add(cls)
         agree, mon = r
@@ -70,6 +78,427 @@ def check(run, tier, seed, replay=None):
         elif not agree:
             run.violation("corr:C14/chunk model and implementation differ",
                           {"correspondence": "C14Corr.agree", "scenario": sc, "impl": obs}, False)
-    run.cov["rule"] = ("size vectors in twelfths of the real 1 MiB limit +- a few bytes, objects padded to the exact size; "
-                       "non-trivial = at least two objects; distinct = (strategy, bypass, slice-length vector)")
-    run.cov["samples"] = [{"scenario": scs[i], "impl": outs[i].get("obs")} for i in idx[:3]]
+    return len(terms), [{"scenario": scs[i], "impl": outs[i].get("obs")} for i in idx[:1]]
+
+
+# ------------------------------------------------------------------ slice names (clause 2)
+
+def gen_names(seed, tier):
+    r = vlib.rng(seed, "C14/names")
+    out = []
+
+    def mk(contents, pre, chunks, cluster=False):
+        return {"cluster": cluster, "contents": contents, "maxcc": len(pre) + 2,
+                "pre": [{"at": list(a), "content": c, "ctrl": k} for a, c, k in pre], "chunks": chunks}
+    # exhaustive small scope: one chunk, every kind of holder of its first name, every kind of holder of its second name
+    holders = [None] + [(c, k) for c in (0, 1) for k in (0, 1, 2, 3)]
+    for h0 in holders:
+        for h1 in holders:
+            pre = []
+            if h0:
+                pre.append(((0, 0), h0[0], h0[1]))
+            if h1:
+                pre.append(((0, 1), h1[0], h1[1]))
+            out.append(mk(2, pre, [0]))
+    out.append(mk(3, [], [0, 1, 0, 2, 1]))                 # equal chunks share a slice
+    out.append(mk(2, [((0, 0), 1, 1)], [0, 0], True))      # cluster scope
+    n = 200 if tier == "quick" else 6000
+    for _ in range(n):
+        k = r.choice([2, 3, 3, 4, 5])
+        chunks = [r.randrange(k) for _ in range(r.choice([1, 2, 2, 3, 4, 5]))]
+        pre = []
+        for _ in range(r.choice([0, 1, 2, 2, 3, 4, 6])):
+            at = (r.choice(chunks) if r.random() < 0.85 else r.randrange(k), r.choice([0, 0, 0, 1, 1, 2, 3]))
+            same = r.random() < 0.45
+            pre.append((at, at[0] if same else r.randrange(k), r.choice([0, 1, 1, 1, 2, 3])))
+        out.append(mk(k, pre, chunks, r.random() < 0.2))
+    return out
+
+
+def names_term(sc, obs):
+    num = {}
+
+    def nn(s):
+        if s not in num:
+            num[s] = len(num) + 1
+        return num[s]
+
+    def es(c, ctrl):
+        return "{| es_content := %d; es_ctrl := %s |}" % (c if c >= 0 else 999, cB(ctrl))
+    table = cL([cP(cN(c), cN(cc), cN(nn(n))) for c, cc, n in obs["names"]])
+    pre = cL([cP(cN(nn(s["name"])), es(s["content"], s["ctrl"])) for s in obs["pre"]])
+    post = cL([cP(cN(nn(s["name"])), es(s["content"], s["ctrl"])) for s in obs["post"]])
+    created = {q["name"] for q in obs["requests"] if q["verb"] == "create" and not q.get("err")}
+    outl, seen = [], set()
+    for n in obs["slices"]:
+        outl.append(cP(cN(nn(n)), cB(n in created and n not in seen)))
+        seen.add(n)
+    other = [q for q in obs["requests"] if q["verb"] != "create"]
+    if other:
+        raise pl.Unrepresentable("chunkPhase issued %s on a slice" % other[0]["verb"])
+    return "(Build_ncase %s %s %s %s %s %s)" % (table, pre, cL([cN(c) for c in sc["chunks"]]), cB(bool(obs.get("err"))),
+                                                cL(outl), post)
+
+
+def names_stage(run, scs):
+    outs = vlib.run_harness("slicenames", scs, par=8)
+    terms, idx = [], []
+    for i, (sc, o) in enumerate(zip(scs, outs)):
+        if "obs" not in o:
+            run.violation("corr:C14/slicenames harness error or panic", {"scenario": sc, "out": o}, False)
+            continue
+        try:
+            terms.append(names_term(sc, o["obs"]))
+            idx.append(i)
+        except pl.Unrepresentable as e:
+            run.violation("corr:C14/slicenames observation outside the model: %s" % e, {"scenario": sc, "impl": o["obs"]}, False)
+    res, logs = vlib.judge_cases("C14", SIMPORTS, "njudge", terms, 2, tag="names")
+    for l in logs:
+        run.violation("corr:C14/coq-eval", {"correspondence": "coq evaluation failed (slicenames)", "log": l}, False)
+    for i, r in zip(idx, res):
+        if r is None:
+            continue
+        sc, obs = scs[i], outs[i]["obs"]
+        reqs = tuple("c" if not q.get("err") else "x" for q in obs["requests"])
+        if sc["pre"]:
+            run.classes.add(("names", len(sc["chunks"]), reqs, len(set(obs["slices"]))))
+        agree, mon = r
+        if not mon:
+            run.violation(ID_NAMES, {"scenario": sc, "impl": obs}, True)
+        elif not agree:
+            run.violation("corr:C14/slice naming model and implementation differ",
+                          {"correspondence": "C14SliceCorr.nagree", "scenario": sc, "impl": obs}, False)
+    return len(terms), [{"scenario": scs[i], "impl": {k: outs[i]["obs"][k] for k in ("slices", "requests")}} for i in idx[70:71]]
+
+
+# ------------------------------------------------------------------ slice garbage collection (clause 4)
+
+def gen_gc(seed, tier):
+    r = vlib.rng(seed, "C14/gc")
+    out = [
+        # update drops a slice that the previous revision's ObjectSet still references; then that ObjectSet goes away
+        {"cluster": False, "contents": 4, "steps": [
+            {"op": "deploy", "phases": [[0, 1], []]}, {"op": "newset", "name": 1, "listed": 0},
+            {"op": "deploy", "phases": [[0, 2], [3]]}, {"op": "newset", "name": 2, "listed": 0},
+            {"op": "deploy", "phases": [[2], []]}, {"op": "delset", "name": 1}, {"op": "deploy", "phases": [[2], []]},
+            {"op": "delset", "name": 2}, {"op": "deploy", "phases": [[], []]}]},
+        # ObjectSets outside the selector / namespace do not protect; labelled strangers are collected
+        {"cluster": False, "contents": 4, "steps": [
+            {"op": "deploy", "phases": [[0, 1]]}, {"op": "newset", "name": 1, "listed": 1}, {"op": "newset", "name": 2, "listed": 2},
+            {"op": "slice", "at": [3, 0], "label": 0, "ctrl": 2}, {"op": "slice", "at": [3, 1], "label": 1, "ctrl": 1},
+            {"op": "slice", "at": [3, 2], "label": 2, "ctrl": 1}, {"op": "deploy", "phases": [[2]]}]},
+        {"cluster": True, "contents": 3, "steps": [
+            {"op": "deploy", "phases": [[0, 1]]}, {"op": "newset", "name": 1, "listed": 0}, {"op": "deploy", "phases": [[2]]},
+            {"op": "delset", "name": 1}, {"op": "deploy", "phases": [[2]]}]},
+    ]
+    n = 120 if tier == "quick" else 4000
+    for _ in range(n):
+        k = r.choice([3, 4, 5, 6])
+        nph = r.choice([1, 1, 2, 3])
+        steps, sets, nset = [], [], 1
+
+        def deploy():
+            return {"op": "deploy", "phases": [[r.randrange(k) for _ in range(r.choice([0, 0, 1, 2, 2, 3]))] for _ in range(nph)]}
+        steps.append(deploy())
+        for _ in range(r.choice([2, 3, 4, 5, 6, 8])):
+            x = r.random()
+            if x < 0.3:
+                steps.append({"op": "newset", "name": nset, "listed": r.choice([0, 0, 0, 0, 1, 2])})
+                sets.append(nset)
+                nset += 1
+            elif x < 0.45 and sets:
+                steps.append({"op": "delset", "name": sets.pop(r.randrange(len(sets)))})
+            elif x < 0.55:
+                steps.append({"op": "slice", "at": [r.randrange(k), r.choice([0, 0, 1, 2])], "label": r.choice([0, 0, 1, 2]),
+                              "ctrl": r.choice([0, 1, 2])})
+            else:
+                steps.append(deploy())
+        steps.append(deploy())
+        out.append({"cluster": r.random() < 0.2, "contents": k, "steps": steps})
+    return out
+
+
+def gc_terms(obs_steps):
+    """One case per deploy step of a history."""
+    out = []
+    for o in obs_steps:
+        num = {}
+
+        def nn(s):
+            if s not in num:
+                num[s] = len(num) + 1
+            return num[s]
+        tmpl = cL([cL([cN(nn(n)) for n in ph]) for ph in o["template"]])
+        sets = cL(["(Build_gset %s %s)" % (cB(s["listed"]), cL([cL([cN(nn(n)) for n in ph]) for ph in s["refs"]])) for s in o["sets"]])
+        slices = cL(["(Build_gslice %d %s)" % (nn(s["name"]), cB(s["labelled"])) for s in o["before"]])
+        bad = [q for q in o["requests"] if q.get("err") and not (q["verb"] == "create" and q["err"] == "AlreadyExists")]
+        if o.get("err") or bad:
+            raise pl.Unrepresentable("Reconcile failed: %s %s" % (o.get("err"), bad[:1]))
+        deleted = cL([cN(nn(q["name"])) for q in o["requests"] if q["verb"] == "delete"])
+        out.append("(Build_gcase %s %s %s %s)" % (tmpl, sets, slices, deleted))
+    return out
+
+
+def gc_stage(run, scs):
+    outs = vlib.run_harness("slicegc", scs, par=8)
+    terms, idx = [], []
+    for i, (sc, o) in enumerate(zip(scs, outs)):
+        if "obs" not in o:
+            run.violation("corr:C14/slicegc harness error or panic", {"scenario": sc, "out": o}, False)
+            continue
+        try:
+            ts = gc_terms(o["obs"])
+        except pl.Unrepresentable as e:
+            run.violation("corr:C14/slicegc observation outside the model: %s" % e, {"scenario": sc, "impl": o["obs"]}, False)
+            continue
+        for j, t in enumerate(ts):
+            terms.append(t)
+            idx.append((i, j))
+    res, logs = vlib.judge_cases("C14", SIMPORTS, "gjudge", terms, 2, tag="gc")
+    for l in logs:
+        run.violation("corr:C14/coq-eval", {"correspondence": "coq evaluation failed (slicegc)", "log": l}, False)
+    for (i, j), r in zip(idx, res):
+        if r is None:
+            continue
+        sc, o = scs[i], outs[i]["obs"][j]
+        ndel = sum(1 for q in o["requests"] if q["verb"] == "delete")
+        nref = len({n for s in o["sets"] if s["listed"] for ph in s["refs"] for n in ph} - {n for ph in o["template"] for n in ph})
+        if o["before"]:
+            run.classes.add(("gc", min(ndel, 3), min(nref, 3), sum(1 for s in o["sets"] if not s["listed"]) > 0,
+                             sum(1 for s in o["before"] if not s["labelled"]) > 0))
+        agree, mon = r
+        if not mon:
+            run.violation(ID_GC, {"scenario": sc, "step": o["step"], "impl": o}, True)
+        elif not agree:
+            run.violation("corr:C14/slice GC model and implementation differ",
+                          {"correspondence": "C14SliceCorr.gagree", "scenario": sc, "step": o["step"], "impl": o}, False)
+    return len(terms), [{"scenario": scs[0], "impl": [{k: o[k] for k in ("step", "template", "requests")} for o in outs[0].get("obs", [])]}]
+
+
+# ------------------------------------------------------------------ sliced ObjectSet vs inline ObjectSet (clause 3)
+
+DEP_REF = [5, 3, 30, 1]      # the ObjectDeployment controlling the slices
+
+
+def slice_twin(r, sc):
+    """Moves a random subset of each phase's objects of the target into 1-2 slices. Returns the scenario pair."""
+    t = sc["target"]
+    sliced = copy.deepcopy(sc)
+    inline = copy.deepcopy(sc)
+    ts = [s for s in sliced["sets"] if (s["kind"], s["ns"], s["name"]) == (t["kind"], t["ns"], t["name"])][0]
+    ti = [s for s in inline["sets"] if (s["kind"], s["ns"], s["name"]) == (t["kind"], t["ns"], t["name"])][0]
+    slices, refs, nxt = [], [], 70
+    drop = r.random() < 0.05
+    for pi, ph in enumerate(ts["phases"]):
+        objs = ph["objects"]
+        x = r.random()
+        if x < 0.15:
+            moved = []
+        elif x < 0.55:
+            moved = list(range(len(objs)))
+        else:
+            moved = [i for i in range(len(objs)) if r.random() < 0.5]
+        names = []
+        if moved or r.random() < 0.1:
+            mobjs = [objs[i] for i in moved]
+            cut = r.randint(0, len(mobjs)) if r.random() < 0.6 else None
+            parts = [mobjs] if cut is None else [mobjs[:cut], mobjs[cut:]]
+            for part in parts:
+                owners = [DEP_REF]
+                y = r.random()
+                if y < 0.45:
+                    owners = owners + [[t["kind"], t["name"], t["uid"], 0]]
+                elif y < 0.55:
+                    owners = [[t["kind"], t["name"], 999, 0]] + owners      # stale reference: same name, other uid
+                elif y < 0.6:
+                    owners = owners + [[t["kind"], 9, 90, 0]]               # only the previous revision owns it
+                slices.append({"ns": t["ns"], "name": nxt, "objects": part, "owners": owners, "rv": 20 + len(slices)})
+                names.append(nxt)
+                nxt += 1
+        refs.append(names)
+        ph["objects"] = [o for i, o in enumerate(objs) if i not in moved]
+    missing = None
+    if drop and slices:
+        missing = slices.pop(r.randrange(len(slices)))
+    if r.random() < 0.1 and slices:
+        slices.append({"ns": 2 if t["ns"] else 0, "name": slices[0]["name"] if t["ns"] else 69, "objects": [], "owners": [], "rv": 39})
+    by = {(s["ns"], s["name"]): s for s in slices}
+    for pi, ph in enumerate(ti["phases"]):
+        ph["objects"] = ts["phases"][pi]["objects"] + [o for n in refs[pi] for o in by.get((t["ns"], n), {"objects": []})["objects"]]
+    sliced["refs"] = [{"kind": t["kind"], "ns": t["ns"], "name": t["name"], "slices": refs}]
+    sliced["slices"] = sorted(slices, key=lambda s: (s["ns"], s["name"]))
+    sliced["next_srv"] = 40
+    return {"sliced": sliced, "inline": inline, "missing": missing is not None}
+
+
+WITNESS = {
+    "force": False, "next_rv": 50, "next_uid": 60, "target": {"kind": 1, "ns": 1, "name": 10, "uid": 100},
+    "store": [pl.mk_obj(1, 1, 1, 7, 8, owners=[[1, 10, 100, 1]], rev=1)],
+    "sets": [sl.mk_set(1, 1, 10, 100, rv=5, deleting=True, phases=[{"name": 1, "class": False, "objects": [pl.mk_pobj(1, 0, 1)]}],
+                       ctrlof=[{"gk": 1, "ns": 1, "name": 1}])],
+}
+
+
+def witness_pair(archived=False):
+    inline = copy.deepcopy(WITNESS)
+    if archived:
+        inline["sets"][0]["deleting"] = False
+        inline["sets"][0]["life"] = 2
+    sliced = copy.deepcopy(inline)
+    sliced["sets"][0]["phases"][0]["objects"] = []
+    sliced["refs"] = [{"kind": 1, "ns": 1, "name": 10, "slices": [[7]]}]
+    sliced["slices"] = [{"ns": 1, "name": 7, "objects": [pl.mk_pobj(1, 0, 1)], "owners": [[1, 10, 100, 0]], "rv": 3}]
+    sliced["next_srv"] = 4
+    return {"sliced": sliced, "inline": inline, "missing": False}
+
+
+def c_slice(s):
+    return "((%d, %d), Build_slice %s %s %d)" % (s["ns"], s["name"], cL([pl.c_pobj(o) for o in s["objects"]]),
+                                                 cL([pl.c_ref(x) for x in s["owners"]]), s["rv"])
+
+
+def c_xev(e):
+    if e.get("set") is not None:
+        return "(XSet %s)" % sl.c_sev(e["set"])
+    s = e["slice"]
+    if s["verb"] != "update" or s.get("err"):
+        raise pl.Unrepresentable("slice request outside the model: %s %s" % (s["verb"], s.get("err")))
+    return "(XSliceUpdate %d %d %s)" % (s["ns"], s["name"], cL([pl.c_ref(x) for x in s["owners"]]))
+
+
+def x_term(pair, obs, fixed):
+    sc, so, io = pair["sliced"], obs["sliced"], obs["inline"]
+    t = sc["target"]
+    refs = cL([cP(cN(x["kind"]), cN(x["ns"]), cN(x["name"]), cL([cL([cN(n) for n in ph]) for ph in x["slices"]])) for x in sc["refs"]])
+    return ("(Build_xcase %s %s %s %d %d %s %s %s %d %d %d %d %s %s %s %s %d %d %s %d %s %s %s %s %d %d)" % (
+        cB(fixed), cB(sc["force"]), pl.c_store(sc["store"]), sc["next_rv"], sc["next_uid"], cL([sl.c_set(s) for s in sc["sets"]]),
+        refs, cL([c_slice(s) for s in sc["slices"]]), sc["next_srv"], t["kind"], t["ns"], t["name"],
+        sl.RES[so["res"]], cL([c_xev(e) for e in so["events"]]), pl.c_store(so["post"]), cL([sl.c_set(s) for s in so["sets"]]),
+        so["next_rv"], so["next_uid"], cL([c_slice(s) for s in so["slices"]]), so["next_srv"],
+        sl.RES[io["res"]], cL([sl.c_sev(e["set"]) for e in io["events"]]), pl.c_store(io["post"]),
+        cL([sl.c_set(s) for s in io["sets"]]), io["next_rv"], io["next_uid"]))
+
+
+def detect_fixed(run):
+    """Which wrapper does the implementation follow? Decided by the witness of Slices' sliced_teardown_refuted:
+    the deleted sliced ObjectSet either deletes the object that lives in its slice (slices loaded before teardown)
+    or only drops its finalizer."""
+    out = vlib.run_harness("slicedset", [witness_pair()])[0]
+    if "obs" not in out:
+        run.violation("corr:C14/slicedset harness error on the witness", {"out": out}, False)
+        return None
+    evs = out["obs"]["sliced"]["events"]
+    return any((e.get("set") or {}).get("kind") == "member" for e in evs)
+
+
+def sliced_stage(run, pairs, fixed):
+    outs = vlib.run_harness("slicedset", [{"sliced": p["sliced"], "inline": p["inline"]} for p in pairs], par=8)
+    terms, idx = [], []
+    for i, (p, o) in enumerate(zip(pairs, outs)):
+        if "obs" not in o:
+            run.violation("corr:C14/slicedset harness error or panic", {"correspondence": "harness", "scenario": p, "out": o}, False)
+            continue
+        try:
+            terms.append(x_term(p, o["obs"], fixed))
+            idx.append(i)
+        except pl.Unrepresentable as e:
+            run.violation("corr:C14/slicedset observation outside the model's event language: %s" % e,
+                          {"correspondence": "C14SliceCorr event language", "scenario": p, "impl": o["obs"]}, False)
+    res, logs = vlib.judge_cases("C14", SIMPORTS, "xjudge", terms, 4, shard=150, tag="sliced")
+    for l in logs:
+        run.violation("corr:C14/coq-eval", {"correspondence": "coq evaluation failed (slicedset)", "log": l}, False)
+    for i, r in zip(idx, res):
+        if r is None:
+            continue
+        p, obs = pairs[i], outs[i]["obs"]
+        a_sliced, a_inline, mon, going = r
+        t = p["sliced"]["target"]
+        ts = [s for s in p["sliced"]["sets"] if s["name"] == t["name"] and s["kind"] == t["kind"]][0]
+        nsl = sum(len(x) for x in p["sliced"]["refs"][0]["slices"])
+        if nsl:
+            run.classes.add(("sliced", ts["life"], ts["deleting"], ts["fin"], p["missing"], obs["sliced"]["res"],
+                             tuple(("slice" if e.get("slice") else e["set"]["kind"] + str((e["set"].get("member") or {}).get("verb", "")))
+                                   for e in obs["sliced"]["events"])))
+        replay = {"scenario": {"sliced": p["sliced"], "inline": p["inline"], "missing": p["missing"]}, "impl": obs}
+        if not mon:
+            run.violation(F_C14 if going else ID_ACTIVE, replay, True)
+        elif not a_sliced:
+            run.violation("corr:C14/sliced ObjectSet pass: model (%s) and implementation differ" % ("sliced_pass_fixed" if fixed else "sliced_pass"),
+                          dict(replay, correspondence="C14SliceCorr.xagree_sliced"), False)
+        elif not a_inline:
+            run.violation("corr:C14/inline twin: ObjectSet controller model and implementation differ",
+                          dict(replay, correspondence="SetCorr.agree on inline_of"), False)
+    return len(terms), [{"scenario": {"refs": pairs[i]["sliced"]["refs"], "slices": pairs[i]["sliced"]["slices"],
+                                      "target": [s for s in pairs[i]["sliced"]["sets"] if s["name"] == 10][0]},
+                         "impl": {"sliced": {k: outs[i]["obs"]["sliced"][k] for k in ("res", "events")},
+                                  "inline": {k: outs[i]["obs"]["inline"][k] for k in ("res", "events")}}} for i in idx[2:3]]
+
+
+def gen_pairs(seed, tier):
+    r = vlib.rng(seed, "C14/sliced")
+    n = 400 if tier == "quick" else 20000
+    base = setgen.gen(seed, n, salt="C14")
+    # every lifecycle state explicitly
+    rr = vlib.rng(seed, "C14/modes")
+    for mode in ("active", "paused", "new", "deleting", "archived", "archived-done"):
+        for _ in range(12 if tier == "quick" else 60):
+            base.append(setgen.gen_scenario(rr, mode))
+    return [witness_pair(), witness_pair(True)] + [slice_twin(r, sc) for sc in base]
+
+
+# ------------------------------------------------------------------ driver
+
+def check(run, tier, seed, replay=None):
+    run.assumptions += [
+        "object sizes are positive (len(json.Marshal(obj)) >= 2), checked per case",
+        "slice naming: the hash is a parameter of the model; the harness tabulates the real utils.ComputeFNV32Hash for the contents and collision "
+        "counts of the scenario, so clashes are forced by placing slices under the names the real code computes; termination of the collision loop "
+        "needs a hash that separates collision counts (Slices' slice_fuel_suffices; the Go loop is unbounded)",
+        "slice GC: an ObjectSet belongs to the deployment iff it is in its namespace and matches its selector (what the collector lists); the list "
+        "is as fresh as the store",
+        "sliced ObjectSet: pass-level atomicity with cache reads as fresh as the store; API-server semantics of coq/theories/Api.v / ObjectSet.v as "
+        "implemented by the harness's recording server; resourceVersions are opaque, ObjectSlices draw theirs from a counter of their own in model "
+        "and harness so that the inline and the sliced run can be compared by equality; the equivalence is stated for ObjectSets whose referenced "
+        "slices all exist (a missing slice is compared with the model only)",
+    ]
+    vlib.std_proof_stage(run, "C14")
+    ok, blog = vlib.build_harness()
+    if not ok:
+        run.violation("corr:harness-build", {"correspondence": "harness no longer builds against the tree", "log": blog[-4000:]}, False)
+        return
+    fixed = detect_fixed(run)
+    if fixed is None:
+        return
+    run.notes.append("sliced ObjectSet pass compared with Slices.%s (decided by the witness of sliced_teardown_refuted)" %
+                     ("sliced_pass_fixed" if fixed else "sliced_pass"))
+    if replay:
+        sc = json.load(open(replay))["replay"]["scenario"]
+        if "sizes" in sc:
+            n, samples = chunk_stage(run, [sc])
+        elif "chunks" in sc:
+            n, samples = names_stage(run, [sc])
+        elif "steps" in sc:
+            n, samples = gc_stage(run, [sc])
+        else:
+            sc.setdefault("missing", False)
+            n, samples = sliced_stage(run, [sc], fixed)
+        run.cov["evaluations"] = n
+        run.cov["samples"] = [{"scenario": sc}]
+        run.cov["rule"] = "replay"
+        return
+    n1, s1 = chunk_stage(run, gen(seed, tier))
+    n2, s2 = names_stage(run, gen_names(seed, tier))
+    n3, s3 = gc_stage(run, gen_gc(seed, tier))
+    n4, s4 = sliced_stage(run, gen_pairs(seed, tier), fixed)
+    run.cov["evaluations"] = n1 + n2 + n3 + n4
+    run.notes.append("evaluations per stage: chunk %d, slice names %d, slice GC (deploy steps) %d, sliced/inline twin passes %d" % (n1, n2, n3, n4))
+    run.cov["rule"] = (
+        "chunk: size vectors in twelfths of the real 1 MiB limit +- a few bytes, objects padded to the exact size; non-trivial = at least two "
+        "objects; distinct = (strategy, bypass, slice-length vector). names: every holder (content x controller kind) of the first two names of a "
+        "chunk exhaustively, then random stores of clashing slices; non-trivial = some slice pre-exists; distinct = (chunks, create outcomes, "
+        "distinct slices). gc: histories of deploy / ObjectSet created from the template / ObjectSet deleted / stranger slices; one case per "
+        "deploy step; non-trivial = slices exist; distinct = (deletes, slices protected only by ObjectSets, unlisted sets, unlabelled slices). "
+        "sliced: setgen scenarios (active, paused, new, deleting, archived, archived-done) with a random subset of each phase's objects moved into "
+        "1-2 slices (owner reference present / absent / stale, 5% with a missing slice); non-trivial = at least one slice referenced; distinct = "
+        "(lifecycle, deleting, finalizer, missing, outcome, request kinds in order)")
+    run.cov["samples"] = s1 + s2 + s3 + s4
